@@ -58,7 +58,7 @@ type pconn struct {
 }
 
 func NewProxy(backend string) (*Proxy, error) {
-	ln, err := net.Listen("tcp", "127.0.0.1:0")
+	ln, err := ListenLoopback()
 	if err != nil {
 		return nil, err
 	}
@@ -171,7 +171,7 @@ func (p *Proxy) acceptLoopOn(ln net.Listener) {
 			if lat > 0 {
 				time.Sleep(lat)
 			}
-			s, err := net.DialTimeout("tcp", backend, 5*time.Second)
+			s, err := DialLoopback(backend, 5*time.Second)
 			if err != nil {
 				rst(c)
 				return
